@@ -98,7 +98,13 @@ def _fill(syms, nbytes, u):
 
 def term_hexes(cs, bo):
     codec = _codec(cs, bo)
-    return ["\0".encode(codec).hex(), "X".encode(codec).hex()]
+    out = ["\0".encode(codec).hex(), "X".encode(codec).hex()]
+    # one character that takes several code units: found wherever it starts on a code-unit boundary, not only at multiples of its own length
+    if codec == "utf-8":
+        out.append("\u00e9".encode(codec).hex())
+    elif unit_width(codec) == 2:
+        out.append("\U0001F600".encode(codec).hex())
+    return out
 
 
 def string_variants(cs, bo, tier):
@@ -106,13 +112,13 @@ def string_variants(cs, bo, tier):
     codec = _codec(cs, bo)
     u = unit_width(codec)
     fixed_lengths = {1: [8, 12, 16, 24, 32, 64, 136, 320], 2: [16, 24, 32, 40, 128, 336], 4: [32, 40, 64, 256]}[u]
-    delims = [("whole", None, None)] + [("term" + ("NUL" if i == 0 else "X"), th, None) for i, th in enumerate(term_hexes(cs, bo))] + \
+    delims = [("whole", None, None)] + [("term" + ("NUL", "X", "WIDE")[i], th, None) for i, th in enumerate(term_hexes(cs, bo))] + \
              [("lead3", None, 3), ("lead8", None, 8), ("lead16", None, 16)]
     out = []
     for dname, term, lead in delims:
         extra = lead or 0
         for L in fixed_lengths:
-            if L > 64 and tier == "quick" and dname in ("termX", "lead3"):
+            if L > 64 and tier == "quick" and dname in ("termX", "termWIDE", "lead3"):
                 continue
             if L + 0 <= extra:
                 continue
@@ -335,6 +341,59 @@ def _task(task):
     return t
 
 
+STR_EDITS = [(("UTF-8", None), ("ISO-8859-1", None)), (("ISO-8859-1", None), ("Windows-1252", None)), (("US-ASCII", None), ("UTF-8", None)),
+             (("UTF-16BE", None), ("UTF-16LE", None)), (("UTF-16", "mostSignificantByteFirst"), ("UTF-16", "leastSignificantByteFirst")),
+             (("UTF-32", "leastSignificantByteFirst"), ("UTF-32", "mostSignificantByteFirst")), (("UTF-16LE", None), ("UTF-16", "mostSignificantByteFirst")),
+             (("UTF-8", None), ("UTF-16BE", None))]
+
+
+def _task_edits(task):
+    """The character set / byte order of a string encoding of a loaded (and used) definition corrected through the public attributes
+    `encoding` and `byte_order`: the next packets are decoded as the attributes say then.  Fixed 32-bit buffers, with and without a size tag."""
+    import dataclasses
+    import warnings
+    t = Tally()
+    offset = task["offset"]
+    bodies = ["01001000011010010010000100100001", "00000000010010000000000001101001", "01001000000000000110100100000000", "11000011101010010100000101000010",
+              "11111111111111100100100000000000", "00000000000000000000000001001000", "10000000100101011110100110100100", "01000001010000100100001101000100"]
+    for (old, new) in STR_EDITS:
+        for lead in (None, 8):
+            for use_first in (True, False):
+                case = {"attr_edits": True, "old": list(old), "new": list(new), "lead": lead, "offset": offset, "decoded_before_edit": use_first}
+                try:
+                    with case_alarm(60), warnings.catch_warnings():
+                        warnings.simplefilter("ignore")
+                        L = 32 + (lead or 0)
+                        e_old = StrEnc(Fixed(L), old[0], old[1], None, lead)
+                        e_new = StrEnc(Fixed(L), new[0], new[1], None, lead)
+                        doc = mk_doc([("edit", e_old, ("fixed", L))], offset, "String")
+                        doc2 = dataclasses.replace(doc, ptypes=tuple(PType("T0", "String", e_new) if p.name == "T0" else p for p in doc.ptypes))
+                        defn = load_doc(doc)
+
+                        def pkt_for(body):
+                            bits = "1" * offset + "00000101" * 3 + "00" + "000000" + (format(32, "08b") if lead else "") + body + "10100101"
+                            bits += "0" * ((-len(bits)) % 8)
+                            return docs.packet_for(0, bits)
+                        if use_first:
+                            parse_one(defn, pkt_for(bodies[0]))
+                        enc = defn.parameter_types["T0"].encoding
+                        enc.encoding = new[0]
+                        # suffixed names carry their own byte order; the attribute is kept in step with them, as the constructor does
+                        enc.byte_order = new[1] or ("leastSignificantByteFirst" if "LE" in new[0] else "mostSignificantByteFirst" if "BE" in new[0] else None)
+                        for body in bodies:
+                            pkt = pkt_for(body)
+                            why = compare_outcome(decode_packet(doc2, pkt), parse_one(defn, pkt))
+                            t.evals += 1
+                            if why:
+                                t.violation({"kind": "field-mismatch", "family": "string", "after": "encoding attributes edited on the loaded definition"},
+                                            {**case, "packet": pkt.hex()}, note=why)
+                                break
+                except BaseException as e:  # noqa: BLE001
+                    t.violation({"kind": "sweep-aborted", "exc": type(e).__name__, "part": "attribute-edits"}, case, observed=str(e)[:200])
+                t.nontrivial += 1
+    return t
+
+
 def _task_long(task):
     """Long fields (hundreds to tens of thousands of bytes): fixed, and taken from a 16-bit length parameter; whole buffers, terminators near
     the start / in the middle / at the very end, leading size tags; aligned and unaligned."""
@@ -430,11 +489,12 @@ def run(ctx):
     tally = fan_out(_task, tasks, jobs=ctx.jobs, seed=ctx.seed)
     sizes = (300, 4098, 30000) if ctx.quick else (300, 1000, 4098, 30000, 65000)
     tally.merge(fan_out(_task_long, [{"offset": off, "nbytes": nb} for nb in sizes for off in ((0, 5) if ctx.quick else (0, 1, 5, 7))], jobs=ctx.jobs, seed=ctx.seed))
+    tally.merge(fan_out(_task_edits, [{"offset": off} for off in (0, 3)], jobs=ctx.jobs, seed=ctx.seed))
     coverage = {
         "programs": tally.programs,
         "exhaustive": True,
         "bound": ("strings: 12 charset/byte-order configurations x {whole buffer, NUL terminator, 'X' terminator, leading size 3/8/16} x "
-                  "{fixed lengths incl. non-byte and long buffers (up to 42 bytes), discrete lookup (3 entries incl. value 0, and no match; and 3 entries with OVERLAPPING criteria decoded in several orders; a list whose second entry cannot be evaluated when the first matches), dynamic reference LEN/LENC raw/calibrated (LENC calibrated 2x - 2, so that a raw 1 is a calibrated 0) and LENH (calibrated 0.5x: fractional values) x "
+                  "{fixed lengths incl. non-byte and long buffers (up to 42 bytes), discrete lookup (3 entries incl. value 0, and no match; and 3 entries with OVERLAPPING criteria decoded in several orders; a list whose second entry cannot be evaluated when the first matches), 8 pairs of character sets / byte orders where the first is turned into the second by editing the loaded definition's encoding attributes (before and after first use), dynamic reference LEN/LENC raw/calibrated (LENC calibrated 2x - 2, so that a raw 1 is a calibrated 0) and LENH (calibrated 0.5x: fractional values) x "
                   "adjustments (8,0),(8,8),(1,0),(1,-8),none} x "
                   f"bit offsets {offsets} x every content over a 5-symbol alphabet (and, on every other offset, a 6-symbol alphabet of Unicode corner cases: BOM, an astral character, a lone surrogate / overlong / out-of-range sequence) for <= {3 if ctx.quick else 4} code units (every size-tag value family); "
                   "binary: every fixed length 1..40 bits, lookup, dynamic lengths 0..40 bits, offsets 0..7, pattern family; "
@@ -448,6 +508,9 @@ def run(ctx):
 
 
 def replay(case):
+    if case.get("attr_edits"):
+        t = _task_edits({"offset": case["offset"]})
+        return next((v for v in t.violations if all(v["case"].get(k) == case.get(k) for k in ("old", "new", "lead", "decoded_before_edit"))), None)
     if case.get("long"):
         t = _task_long({"offset": case["offset"], "nbytes": case["nbytes"]})
         return next((v for v in t.violations if v["case"].get("variant") == case.get("variant") and v["case"].get("body_index") == case.get("body_index")), None)
